@@ -21,7 +21,7 @@ mod proofs {
     //   Ok(response)  ==>  :status was present and none of :method :scheme :authority :path :protocol was, and the
     //                      response carries exactly that status;
     //   otherwise     ==>  stream error PROTOCOL_ERROR on this stream.
-    // @harness id=client_convert_poll_message_pseudo props=C13 kind=complete tier=attempt timeout=600 fn=proto::Peer@Peer::convert_poll_message
+    // @harness id=client_convert_poll_message_pseudo props=C13 kind=complete tier=quick timeout=600 fn=proto::Peer@Peer::convert_poll_message
     #[kani::proof]
     #[kani::unwind(4)]
     fn client_convert_poll_message_pseudo() {
